@@ -4,6 +4,7 @@ From Coq Require Import List Arith Bool.
 From LokyV Require Import Lib.LedgerLib Lib.PoolLib Gen.Ledger Gen.Pool Model.Pool Proofs.PoolThm.
 From LokyV Require Model.Wake Proofs.WakeThm.
 From LokyV Require Lib.WorkerLib Gen.Worker Proofs.WorkerThm.
+From LokyV Require Model.SentinelLoop Proofs.SentinelLoopThm.
 Import ListNotations.
 
 (* no history without kill_workers=True ever fails a future with ShutdownExecutorError *)
@@ -85,3 +86,24 @@ Theorem C05_collected_executor_is_shut_down_gracefully :
   collected_executor_wakes_the_manager_under_the_shutdown_lock = true.
 Proof. split; reflexivity. Qed.
 Print Assumptions C05_collected_executor_is_shut_down_gracefully.
+
+(* ---- the sentinels of a graceful shutdown (Model/SentinelLoop.v; shutdown_workers' loop and its three constants are read off the
+   source) ----
+   the loop posts with put_nowait -- it cannot block -- one sentinel per worker it found registered; for every behaviour of the queue
+   (full or not at each attempt) and of the workers (how many are alive at each test): it ends within 3 n + 3 K + 6 environment answers;
+   it never posts more than n; when it ends normally every sentinel was posted or no child was alive any more; it gives up (re-raises
+   queue.Full) only after the queue was full K + 1 times, K = 47 being the number of multiplications by 1.2 that take cooldown_time
+   from 0.001 s beyond 5 s (computed from the generated constants) *)
+Theorem C05_sentinel_loop :
+  sentinel_loop_posts_without_blocking_one_per_registered_worker = true /\ children_alive_counts_the_registered_workers = true /\
+  SentinelLoopThm.give_up_after = Some 47 /\
+  (forall n K es, 3 * n + 3 * K + 6 <= length es -> SentinelLoop.ended (SentinelLoop.run n K es SentinelLoop.sl0) = true) /\
+  (forall n K es, let s := SentinelLoop.run n K es SentinelLoop.sl0 in
+     SentinelLoop.sent s <= n /\
+     (SentinelLoop.ph s = SentinelLoop.Done -> SentinelLoop.sent s = n \/ SentinelLoop.saw_none_alive s = true) /\
+     (SentinelLoop.ph s = SentinelLoop.Raised -> SentinelLoop.grown s = K)).
+Proof.
+  split; [reflexivity|]. split; [reflexivity|]. split; [exact SentinelLoopThm.give_up_after_value|].
+  split; [exact SentinelLoopThm.loop_ends | exact SentinelLoopThm.loop_outcome].
+Qed.
+Print Assumptions C05_sentinel_loop.
